@@ -113,6 +113,35 @@ func (r *Run) Go(op string, fields Ev, f func() Ev) int {
 	return id
 }
 
+// Call runs a library call in the calling goroutine (which must not be the scenario driver): call record, the
+// call, ret record. Used by consumers that issue several calls back to back without waiting for quiescence.
+func (r *Run) Call(op string, fields Ev, f func() Ev) Ev {
+	r.mu.Lock()
+	r.nextID++
+	id := r.nextID
+	r.pending[id] = true
+	e := Ev{"ev": "call", "id": id, "op": op, "t": r.now()}
+	for k, v := range fields {
+		e[k] = v
+	}
+	r.evs = append(r.evs, e)
+	r.mu.Unlock()
+	var res Ev
+	func() {
+		defer func() {
+			if p := recover(); p != nil {
+				res = Ev{"k": "panic", "msg": fmt.Sprint(p)}
+			}
+		}()
+		res = f()
+	}()
+	r.mu.Lock()
+	delete(r.pending, id)
+	r.evs = append(r.evs, Ev{"ev": "ret", "id": id, "op": op, "res": res, "t": r.now()})
+	r.mu.Unlock()
+	return res
+}
+
 // Quiesce waits until every goroutine of the bubble is durably blocked and records which calls
 // have not returned.
 func (r *Run) Quiesce() []int {
@@ -171,6 +200,11 @@ func bubble(t *testing.T, body func(r *Run)) (evs []Ev, leak bool, msg string) {
 		}()
 		synctest.Test(t, func(t *testing.T) {
 			r = newRun()
+			if envInt("VH_PERTURB", 0) > 0 { // instrumented build: seeded schedule perturbation, a fresh seed per run
+				bubbleCount++
+				schedEnable(uint64(envInt("VERIF_SEED", 1))*1000003 + bubbleCount)
+				defer schedDisable()
+			}
 			body(r)
 		})
 	}()
@@ -208,7 +242,12 @@ func (w *traceWriter) close() { w.w.Flush(); w.f.Close() }
 
 func seededRand() *rand.Rand { return rand.New(rand.NewSource(int64(envInt("VERIF_SEED", 1)))) }
 
+var bubbleCount uint64
+
 func report(v Ev) {
+	if p, y := schedStats(); p > 0 {
+		v["yield_points_passed"], v["yields"] = p, y
+	}
 	b, _ := json.Marshal(v)
 	fmt.Printf("REPORT %s\n", b)
 }
